@@ -3,6 +3,7 @@ package spec
 import (
 	"go/ast"
 	"go/constant"
+	"go/token"
 	"go/types"
 	"strings"
 
@@ -99,7 +100,26 @@ func c06StoreIntake(r *an.Run) {
 						c = ctz.Canon(fs.Cond)
 					}
 					o.Site("countTrailingZeros loop condition %s", c)
-					if !reMatch(`^\$v:uint8 < shachain\.maxHeight$|^zeros < maxHeight$`, c) && an.Text(fs.Cond) != "zeros < maxHeight" {
+					// the bound is one of the conjuncts of the loop condition
+					// (a further conjunct — the bit test moved from a
+					// `break` into the condition — only stops earlier)
+					bounded := an.Text(fs.Cond) == "zeros < maxHeight"
+					var conj func(e ast.Expr)
+					conj = func(e ast.Expr) {
+						e = ast.Unparen(e)
+						if b, ok := e.(*ast.BinaryExpr); ok && b.Op == token.LAND {
+							conj(b.X)
+							conj(b.Y)
+							return
+						}
+						if reMatch(`^\$v:uint8 < shachain\.maxHeight$|^shachain\.maxHeight > \$v:uint8$|^zeros < maxHeight$|^maxHeight > zeros$`, ctz.Canon(e)) {
+							bounded = true
+						}
+					}
+					if fs.Cond != nil {
+						conj(fs.Cond)
+					}
+					if !bounded {
 						o.FailAt(ctz.ID+"#bound", ctz.Where(fs.Pos()), "countTrailingZeros counts while %s, expected zeros < maxHeight (the bound the bucket array is sized for)", an.Text(fs.Cond))
 					}
 				}
